@@ -46,7 +46,7 @@ CHECKS = {
          "ordering comparisons on Missing cells checked differentially only; None-bearing columns never indexed", "3/C17"),
  "C18": ("exploration", "reference recomputation of where_fin/raw_learners/moving_average + referential-integrity invariant on every Result produced",
          "Held on the generated Results x queries executed.", "l and p always given explicitly", "3/C18"),
- "C19": ("exploration", "invariants at injected hooks (our lock/array/inner cacher/time) under a seeded controlled scheduler (random walk + PCT) driving the real ConcurrentCacher; quiescence + deadlock rules; DiskCacher failure/cut enumeration; real-thread yield injection; multi-process event-log checker; the cacher CobaMultiprocessor builds, with real workers",
+ "C19": ("exploration", "invariants at injected hooks (our lock/array/inner cacher/time) under a seeded controlled scheduler (random walk + PCT) driving the real ConcurrentCacher; quiescence + deadlock rules; DiskCacher failure/cut enumeration; real-thread yield injection; multi-process event-log checker; the cacher CobaMultiprocessor builds, with real workers; the real OpenML client (OpenmlSource) over the shared cache with a canned fault-injecting HTTP source: request-count, complete-table-or-exception, lock-quiescence and recovery monitors",
          "Held on the distinct schedules executed (trace hashes counted) at the quantifier's granularity.", "one caller never nests get_set on colliding keys", "3/C19"),
  "C20": ("exploration", "prime-valued inputs through the real InteractionsEncoder vs combinations-with-replacement reference; term lists enumerated up to a degree bound",
          "Held on the enumerated term lists x generated inputs executed.", "order within a term not asserted", "3/C20"),
